@@ -78,7 +78,8 @@ PROPS = {
                  "unknowns' and for floundered answers) has exactly one entry per unknown of the query, of the unknown's "
                  "kind, referring to that unknown only; Substitution::is_identity_subst and "
                  "UCanonical::is_trivial_substitution coincide with that definition for arbitrary variable entries.",
-        "bounds": "queries with three unknowns; kinds (general / integer type, lifetime, const) fixed per query, "
+        "bounds": "queries with three unknowns; kinds (general / integer type, lifetime, const) fixed per query - thorough "
+                  "tier: all 64 kind triples -, "
                   "universes and the (depth, index) of every entry symbolic at full width; unwind 8",
         "outside": "that the SOLVERS return such substitutions for every program and goal (root_answer, Fulfill::solve, "
                    "make_solution run the engines and the inference table; DESIGN.md §4.1, P30); universes of returned "
@@ -192,8 +193,9 @@ PROPS = {
         "design_ref": "DESIGN.md §4.3",
     },
     "C17": {
-        "units": [engine_unit("harness/engine/c17_inval.rs", "harness/engine/c17_anti.rs",
+        "units": [engine_unit("harness/engine/c17_inval.rs", "harness/engine/c17_inval_rows.rs", "harness/engine/c17_anti.rs",
                               modules={"harness/engine/c17_inval.rs": "slg::verif_c17_inval",
+                                       "harness/engine/c17_inval_rows.rs": "slg::verif_c17_inval",
                                        "harness/engine/c17_anti.rs": "slg::aggregate::verif_c17_anti"})],
         "claim": "(1) AntiUnifier::aggregate_tys / aggregate_lifetimes / aggregate_consts / aggregate_name_and_substs "
                  "(chalk-engine/src/slg/aggregate.rs): for 30 classes (8 list-carrying / pointer constructors with agreeing or "
@@ -206,7 +208,9 @@ PROPS = {
                  "(X, X)). One constructor application per side over leaf children.",
         "bounds": "one constructor application per side; two children; leaf kinds fixed per query (bound variable / "
                   "ground / scalar / placeholder), payloads symbolic at full width including the indices of the "
-                  "guidance's bound variables (so repeated variables are covered); unwind 8",
+                  "guidance's bound variables (so repeated variables are covered); thorough tier: for nine list-carrying "
+                  "constructors, six guidance-children patterns x all 16 candidate-children kind pairs (864 classes in "
+                  "216 row harnesses), and 14 anti-unifier rows over all agreement patterns; unwind 8",
         "outside": "merge_into_guidance / make_solution as wholes (InferenceTable::canonicalize on ena's heap tables, "
                    "DESIGN.md P30); anti-unification deeper than one constructor over leaves; top-level ids in the "
                    "anti-unifier classes are concrete (an id read back out of the widest TyKind variant is opaque to CBMC); "
@@ -277,14 +281,17 @@ PROPS = {
         "design_ref": "DESIGN.md §4.2",
     },
     "C18": {
-        "units": [dict(IR_UNIT, files=["harness/ir/src/c18.rs"], modules={"harness/ir/src/c18.rs": "c18"})],
+        "units": [dict(IR_UNIT, files=["harness/ir/src/c18.rs", "harness/ir/src/c18_rows.rs"],
+                       modules={"harness/ir/src/c18.rs": "c18", "harness/ir/src/c18_rows.rs": "c18"})],
         "claim": "For every pair of types of the stated shapes, `could_match` (chalk-ir/src/could_match.rs, "
                  "MatchZipper::zip_tys and the derived Zip impls it drives) never answers false when the "
                  "one-step unifiability rule of the real unifier says the pair unifies; checked in both "
                  "argument orders. The step covers each of the 23 TyKind constructors against itself "
                  "(children: ground Foreign leaves with symbolic ids, plus mixed variable/ground child "
-                 "classes), each constructor against every other one, and all 81 pairs of leaf kinds "
-                 "(as whole types and as children of a slice).",
+                 "classes), each constructor against every other one, all 81 pairs of leaf kinds "
+                 "(as whole types and as children of a slice), and - thorough tier - for nine child-carrying "
+                 "constructors (Adt, Tuple, Array, Slice, Ref, FnDef, Dyn, Alias, Function) the first child of every "
+                 "leaf kind against every leaf kind (729 classes in 81 row harnesses); argument lists as such.",
         "bounds": "one constructor application per side over leaf children; argument lists [ty, lifetime, ty]; "
                   "ids, mutabilities, scalar kinds, placeholder/bound-var/inference-var payloads, lifetimes "
                   "(kind and payload) and array-length constants (kind and payload) symbolic at full width; "
